@@ -2,6 +2,7 @@
 from pyvc.contracts import FN, LOOP, LEMMA
 from pyvc.models_chan import ChanPlugin
 
+DEPENDS = []
 SPEC_MODULES = ("wire",)
 Q = "betterproto.grpc.util.async_channel.AsyncChannel."
 
